@@ -661,13 +661,13 @@ impl StunClient {
     broadcast use axiom_txid_key_model;
     let ghost c0 = *self;
     let ghost now = instant.ns@;
-//@after "let timed_out = self.timeouts.check(instant);"
+//@stmt "VxEvents::vx_init()"
     let ghost removed = choose|removed: Seq<TimeoutItem>| check_post(c0.timeouts.ms(), self.timeouts.ms(), removed, timed_out@, now);
     let ghost ms1 = self.timeouts.ms();
-    let ghost mut ids: Seq<TransactionId> = Seq::empty();
     proof {
         assert(check_post(c0.timeouts.ms(), ms1, removed, timed_out@, now));
         lemma_check_post_unfold(c0.timeouts.ms(), ms1, removed, timed_out@, now);
+        assert(forall|k: int| 0 <= k < removed.len() ==> timed_out@[k] == #[trigger] removed[k].transaction_id && removed[k].expiry() <= now);
         removed.to_multiset_ensures();
         // every popped entry was the (unique) timer of an outstanding request
         assert forall|k: int| 0 <= k < removed.len() implies
@@ -691,16 +691,12 @@ impl StunClient {
             }
         }
     }
-//@before "let mut events"
-    proof {
-        assert(forall|k: int| 0 <= k < removed.len() ==> timed_out@[k] == #[trigger] removed[k].transaction_id && removed[k].expiry() <= now);
-    }
 //@before "self.transaction_events.vx_commit("
     let ghost evs = events.events@;
+    let ghost ids = Seq::new(removed.len(), |k: int| removed[k].transaction_id);
     proof {
         assert(self.wf());
         self.lemma_empty_iff();
-        assert(ids.len() == removed.len());
         assert forall|a: int, b: int| 0 <= a < ids.len() && 0 <= b < ids.len() && a != b implies ids[a] != ids[b] by {
             if a < b { assert(removed[a].transaction_id != removed[b].transaction_id); }
             else { assert(removed[b].transaction_id != removed[a].transaction_id); }
@@ -730,7 +726,9 @@ impl StunClient {
             let x = self.timeouts.top();
             self.lemma_notif(now, x, evs[ids.len() as int]->RestransmissionTimeOut_0.1);
         }
-        assert(forall|k: int| 0 <= k < ids.len() ==> tmo_event_ok(c0, self.transactions@, #[trigger] ids[k], evs[k], now));
+        assert forall|k: int| 0 <= k < ids.len() implies tmo_event_ok(c0, self.transactions@, #[trigger] ids[k], evs[k], now) by {
+            assert(tmo_event_ok(c0, self.transactions@, removed[k].transaction_id, evs[k], now));
+        }
     }
 //@tail
     proof {
@@ -749,28 +747,14 @@ impl StunClient {
     let ghost ms0 = self.timeouts.ms();
     let ghost mech0 = self.mechanism;
     proof {
-        assert(timed_out@[i] == cur);
         assert(tr0.contains_key(cur) && tr0[cur] == c0.transactions@[cur]);
         assert(c0.tr_ok(cur));
     }
-//@after "self.timeouts.add(instant, rto, transaction_id);"
-    proof {
-        assert(transaction_id == cur);
-        assert(self.timeouts.ms() == ms0.insert(TimeoutItem { instant, timeout: rto, transaction_id: cur }));
-    }
-//@after "events.push(StunClientEvent::OutputPacket("
-    proof {
-        ids = ids.push(transaction_id);
-        assert(self.transactions@.contains_key(cur));
-        assert(self.transactions@ =~= tr0.insert(cur, self.transactions@[cur]));
-    }
-//@after "events.push(event);"
-    proof { ids = ids.push(transaction_id); }
 //@loopend 1
     proof {
         let tr1 = self.transactions@;
         let ms1b = self.timeouts.ms();
-        assert(ids.len() == i + 1 && ids[i] == cur);
+        assert(events.events@.len() == i + 1);
         if tr1.contains_key(cur) {
             // retransmitted
             let item = TimeoutItem { instant, timeout: tr1[cur].rtos.last_rto, transaction_id: cur };
@@ -832,9 +816,8 @@ impl StunClient {
             && forall|k: int| vx_i0 <= k < removed.len() ==> self.mechanism->Some_0.violated().contains(#[trigger] removed[k].transaction_id)
                 == c0.mechanism->Some_0.violated().contains(removed[k].transaction_id),
         // events so far: one per served request
-        ids.len() == vx_i0, events.events@.len() == vx_i0,
-        forall|k: int| 0 <= k < vx_i0 ==> #[trigger] ids[k] == removed[k].transaction_id,
-        forall|k: int| 0 <= k < vx_i0 ==> tmo_event_ok(c0, self.transactions@, #[trigger] ids[k], events.events@[k], now),
+        events.events@.len() == vx_i0,
+        forall|k: int| 0 <= k < vx_i0 ==> tmo_event_ok(c0, self.transactions@, (#[trigger] removed[k]).transaction_id, events.events@[k], now),
     decreases timed_out@.len() - vx_i0,
 //@spec
     requires old(self).wf(),
